@@ -16,7 +16,8 @@ package config
 //@   ensures @C08 err == nil ==> seq(res.Extensions) == tail(old(seq(content.Extensions)), sO(run(old(seq(profile.Extensions)), old(seq(content.Extensions)), 0, INIT)), 0, sOut(run(old(seq(profile.Extensions)), old(seq(content.Extensions)), 0, INIT)))
 //@   ensures @C08 err != nil ==> res == nil
 //@   ensures @C03 err == nil ==> res.Subject == content.Subject && res.SerialNumber == content.SerialNumber && res.IssuerUniqueId == content.IssuerUniqueId && res.SubjectUniqueId == content.SubjectUniqueId && res.Issuer == content.Issuer && res.Alias == content.Alias && res.Profile == content.Profile && res.KeyAlgorithm == content.KeyAlgorithm && res.SignatureAlgorithm == content.SignatureAlgorithm && res.Manipulations == content.Manipulations
-//@   ensures @C04 err == nil ==> res.Validity == (if !content.Validity.IsSet && profile.Validity.IsSet then profile.Validity else content.Validity)
+// (C13: the whole validity is inherited, including whether it is static - the hash blanks run-relative times only)
+//@   ensures @C04,C13 err == nil ==> res.Validity == (if !content.Validity.IsSet && profile.Validity.IsSet then profile.Validity else content.Validity)
 //@   ensures err == nil ==> fresh(res)
 //@   loop 1
 //@     invariant 0 <= idx && idx <= len(profile.Extensions)
